@@ -6,7 +6,26 @@
 
     A *history* is a list of contributions [(name, (types, kind))] aggregated in order into the empty aggregator
     with one shared checker: [aggregate_all ord cf fuel (agg0 tag) st0 l 0 = inl (a, s)] says that all of them
-    succeeded and left the aggregator [a].  [ord] is the iteration order of the [interfaces] HashMap. *)
+    succeeded and left the aggregator [a].  [ord] is the iteration order of the [interfaces] table.
+
+    Overview (clauses of the property -> theorems):
+      canonical name = highest contributed version, one per track, idempotent, redirects total, other tracks untouched
+          canonical_is_highest_partial, redirects_total_partial, canonical_idempotent_partial, canonical_is_spec_partial,
+          other_tracks_untouched_partial, canonical_order_indep_partial            (owner-free histories)
+          canonical_is_highest_refuted                                             (general: owned resources)
+      merged type satisfies every contributor
+          merge_upper_bound_partial                                                (flat histories)
+          merge_upper_bound_refuted, merge_upper_bound_component_refuted           (general: nested instances, components)
+      instance requirements merge to the union / equal requirements merge to themselves / idempotence
+          instance_merge_is_union_partial, aggregate_idempotent_partial, flat_history_invariant   (flat)
+      order independence
+          aggregate_order_indep_partial (flat, both orders succeed), canonical_order_indep_partial (owner-free)
+          aggregate_order_indep_refuted, aggregate_order_indep_map_refuted         (general)
+      fails exactly on conflict
+          fails_iff_conflict_partial ("conflict => failure", flat); fails_iff_conflict_refuted (general, other direction)
+    Not proved: "failure only on conflict" and "success is order independent" for flat histories (need completeness of the
+    checker at the given fuel and panic-freedom of the copy); anything about `use`d types and resources beyond the model
+    itself (their behaviour is covered by the correspondence and the executable specification only). *)
 From Coq Require Import Permutation.
 From WacV Require Import Str Names NamesSpec Types Checker SubSpec Aggregator AggregatorSpec.
 From WacV Require Import SubSpecProofs AggregatorFrame AggregatorNames AggregatorCanonical AggregatorRemap AggregatorFlat
@@ -171,6 +190,26 @@ Theorem instance_merge_is_union_partial : forall ord cf fuel (Col : types -> Pro
 Proof. intros ord cf fuel Col tag0 Hs Ht. exact (flat_merge_is_union ord cf fuel Col Hs tag0 Ht). Qed.
 Print Assumptions instance_merge_is_union_partial.
 
+(** [aggregate_idempotent] / [equal_requirements_merge_to_self], flat form: aggregating a requirement all of whose exports
+    the import already offers leaves the export names and the tree of every export as they were (if it succeeds; that it
+    does succeed for equal requirements needs the completeness of the checker at the given fuel - not proved here).
+    General [aggregate_idempotent]: refuted by [canonical_is_highest_refuted] (owned resources). *)
+Theorem aggregate_idempotent_partial : forall ord cf fuel (Col : types -> Prop) tag0,
+  (forall t1 t2, Col t1 -> Col t2 -> t_tag t1 = t_tag t2 -> t1 = t2) -> (forall t, Col t -> t_tag t <> tag0) ->
+  forall a s done c a' s' y oid exs,
+  HInv Col tag0 a s done -> flat_contrib Col c ->
+  (assoc (fst c) (a_imports a) = Some (KInstance y) \/
+   (assoc (fst c) (a_imports a) = None /\ exists en, find_compat (fst c) (a_imports a) = Some (en, KInstance y))) ->
+  get_if (a_types a) y = Some (mkif oid [] exs) ->
+  aggregate ord cf fuel a s (fst c) (fst (snd c)) (snd (snd c)) = AOk (a', s') ->
+  forall i x, snd (snd c) = KInstance i -> get_if (fst (snd c)) i = Some x ->
+    (forall en ek, In (en, ek) (i_exports x) -> In en (map fst exs)) ->
+    exists exs', get_if (a_types a') y = Some (mkif oid [] exs') /\ map fst exs' = map fst exs /\
+                 forall en k tr, assoc en exs = Some k -> UnfK (a_types a) k tr ->
+                                 exists k', assoc en exs' = Some k' /\ UnfK (a_types a') k' tr.
+Proof. intros ord cf fuel Col tag0 Hs Ht. exact (flat_idempotent_step ord cf fuel Col Hs tag0 Ht). Qed.
+Print Assumptions aggregate_idempotent_partial.
+
 (** [HInv] is the invariant of flat histories: it holds initially and after every successful flat aggregation. *)
 Theorem flat_history_invariant : forall ord cf fuel (Col : types -> Prop) tag0,
   (forall l x, In x (ord l) -> In x l) ->
@@ -212,6 +251,19 @@ Theorem aggregate_order_indep_partial : forall ord cf fuel (Col : types -> Prop)
                         UnfK (a_types a) m tm /\ UnfK (a_types a') m' tm' /\ SubCM tm tm' /\ SubCM tm' tm.
 Proof. intros ord cf fuel Col tag0 Ho Hs Ht. exact (flat_order_indep ord Ho cf fuel Col Hs tag0 Ht). Qed.
 Print Assumptions aggregate_order_indep_partial.
+
+(** [fails_iff_conflict], the direction "a conflict makes the aggregation fail", for flat histories: in a successful
+    history two contributions of one track agree on the tree of every export they share ([exports_of c en tr]: contribution
+    c requires an export en with tree tr).  The converse (failure only on conflict) is refuted in general below and is
+    not proved for flat histories (it needs the completeness/totality development mentioned above). *)
+Theorem fails_iff_conflict_partial : forall ord cf fuel (Col : types -> Prop) tag0,
+  (forall l x, In x (ord l) -> In x l) ->
+  (forall t1 t2, Col t1 -> Col t2 -> t_tag t1 = t_tag t2 -> t1 = t2) -> (forall t, Col t -> t_tag t <> tag0) ->
+  forall l a s, Forall (flat_contrib Col) l -> NoDup (map ckey l) -> history_ok ord cf fuel tag0 l a s ->
+  forall c1 c2, In c1 l -> In c2 l -> compat_spec_b (fst c1) (fst c2) = true ->
+  forall en tr1 tr2, exports_of c1 en tr1 -> exports_of c2 en tr2 -> tr1 = tr2.
+Proof. intros ord cf fuel Col tag0 Ho Hs Ht. exact (flat_success_no_conflict ord Ho cf fuel Col Hs tag0 Ht). Qed.
+Print Assumptions fails_iff_conflict_partial.
 
 (** the merged map itself can depend on the order even when every order succeeds (one interface identifier under two
     import names) *)
